@@ -46,6 +46,14 @@ fn arena_for(addr: u64, len: u64) -> Option<Arena> {
     Arena::map(lo, ((hi - lo) / 4096 + 1) as usize)
 }
 
+/// the 16-byte entry slot as far as it is readable (bytes behind the end of the mapping read as 0xCC)
+fn slot16(addr: u64, avail: usize) -> Vec<u8> {
+    let n = avail.min(16);
+    let mut v = unsafe { std::slice::from_raw_parts(addr as *const u8, n) }.to_vec();
+    v.resize(16, 0xCC);
+    v
+}
+
 fn run_one(sc: &Value) {
     panics::install_hook();
     let flavour = s(sc, "flavour");
@@ -163,7 +171,9 @@ fn run_one(sc: &Value) {
     // not at the next 16-byte boundary
     let packed = sc.get("packed").and_then(|x| x.as_bool()).unwrap_or(false) && (prologue.is_empty() || prologue == "plain");
     let next_off: usize = if packed { 6 } else { 16 };
-    let has_next = foff + next_off + 6 <= fa.len && !prologue.starts_with("thunk");
+    // "last": the target's 6 bytes are the last readable bytes of their mapping (generated code in front of a guard page)
+    let last = sc.get("last").and_then(|x| x.as_bool()).unwrap_or(false) && (foff + 6) % 4096 == 0 && foff + 6 < fa.len;
+    let has_next = foff + next_off + 6 <= fa.len && !prologue.starts_with("thunk") && !last;
     if has_next {
         fa.put_stub(foff + next_off, ORIG_ID + 2);
     }
@@ -171,6 +181,9 @@ fn run_one(sc: &Value) {
         fa.seal_pages(0, fa.len / 4096, libc::PROT_READ | libc::PROT_WRITE | libc::PROT_EXEC);
     } else {
         fa.seal();
+    }
+    if last {
+        fa.seal_pages((foff + 6) / 4096, fa.len / 4096 - (foff + 6) / 4096, libc::PROT_NONE);
     }
     // fake arena
     let mut fake_arena = None;
@@ -198,14 +211,15 @@ fn run_one(sc: &Value) {
         }
     }
     watch::clear();
-    watch::add_entry("f1", func_addr, 32.min((fa.base + fa.len as u64 - func_addr) as usize));
+    watch::add_entry("f1", func_addr, if last { 6 } else { 32.min((fa.base + fa.len as u64 - func_addr) as usize) });
     if body_addr != 0 {
         watch::add_arena("body", body_addr, 16);
     }
     if has_prev {
         watch::add_arena("prev", func_addr - 16, 16);
     }
-    let origb = unsafe { std::slice::from_raw_parts(func_addr as *const u8, 16) }.to_vec();
+    let avail = if last { 6 } else { 16 };
+    let origb = slot16(func_addr, avail);
     let split = 4096 - (func_addr & 0xfff) as usize;
     emit(json!({"ev":"Target","f":"f1","orig":origb,"split":split,"rwpages":watch::writable_pages(func_addr),"addr":a8(func_addr)}));
     if dictate {
@@ -274,7 +288,7 @@ fn run_one(sc: &Value) {
     interpose::QUIET_FAILS.store(false, SeqCst);
     interpose::DENY_PAGE.store(0, SeqCst);
     watch::diff_all("install-end");
-    let entry = unsafe { std::slice::from_raw_parts(func_addr as *const u8, 16) }.to_vec();
+    let entry = slot16(func_addr, avail);
     let tramp = interpose::OWNED.lock().unwrap().last().map(|x| x.0).unwrap_or(0);
     let trampb = if tramp != 0 { unsafe { std::slice::from_raw_parts(tramp as *const u8, 16) }.to_vec() } else { vec![0u8; 16] };
     // where does the trampoline's own jump go (for the Rust-fake flavours the fake address is
@@ -307,7 +321,7 @@ fn run_one(sc: &Value) {
     }
     in_lib(|| drop(inj));
     watch::diff_all("drop-end");
-    let entry2 = unsafe { std::slice::from_raw_parts(func_addr as *const u8, 16) }.to_vec();
+    let entry2 = slot16(func_addr, avail);
     emit(json!({"ev":"Dropped","entry":entry2,"live":interpose::owned_live()}));
     emit(json!({"ev":"Called","phase":"dropped","res":call_stub(func_addr)}));
     if prologue == "selfmod" && foff + 36 <= fa.len {
